@@ -922,6 +922,7 @@ func c20Chokepoints(r *Run) {
 		}
 		seen++
 		f := w.Fn("hsms", "ConnectionMetrics."+name)
+		r.Analysed(w.FnName(f))
 		al, ok := allowed[name]
 		if !ok {
 			r.Fail(rule, "metric helper "+name+" has no documented chokepoint", f.Pos(), "a new counter helper must be added to the outcome table")
@@ -930,6 +931,7 @@ func c20Chokepoints(r *Run) {
 		var allowFns []*ssa.Function
 		for _, a := range al {
 			allowFns = append(allowFns, w.Fn("hsms", a))
+			r.Analysed(w.FnName(allowFns[len(allowFns)-1]))
 		}
 		n := 0
 		for _, u := range w.usesOf(f) {
@@ -1017,6 +1019,7 @@ func c20GaugePairing(r *Run) {
 	w := r.W
 	s := newSendCtx(w)
 	pair := func(fn *ssa.Function, incN, decN string) (ssa.CallInstruction, bool) {
+		r.Analysed(w.FnName(fn))
 		inc := w.Fn("hsms", "ConnectionMetrics."+incN)
 		dec := w.Fn("hsms", "ConnectionMetrics."+decN)
 		incs := callsIn(fn, isFn(inc))
@@ -1070,6 +1073,7 @@ func c20WireCounting(r *Run) {
 	s := newSendCtx(w)
 	wf := s.writeFrame
 	incSend := w.Fn("hsms", "ConnectionMetrics.incDataMsgSend")
+	r.Analysed(w.FnName(wf))
 	paths, ok := enumPaths(wf, 50000)
 	if !ok {
 		r.Undecided(rule, "writeFrame", wf.Pos(), "too many paths")
@@ -1149,6 +1153,9 @@ func c20OutcomeTable(r *Run) {
 		return
 	}
 	s := t.s
+	for _, f := range []*ssa.Function{s.sendWaitReply, s.sendNoReply, s.drain} {
+		r.Analysed(w.FnName(f))
+	}
 	autoS9 := w.Fn("hsms", "connection.sendAutoS9F9")
 	t.dt.Effect = func(in ssa.Instruction, e *Evaluator, p *Path) string {
 		c, ok := in.(ssa.CallInstruction)
